@@ -28,15 +28,15 @@ func c09dur(name string) time.Duration {
 }
 
 type c09chg struct {
-	c       *Change
-	id      string
-	ready   bool
-	ntasks  int
-	taskIDs []string
-	spawn   time.Time
-	readyT  time.Time
-	hasAttr bool
-	pending bool
+	c        *Change
+	id       string
+	ready    bool
+	ntasks   int
+	taskIDs  []string
+	spawn    time.Time
+	readyT   time.Time
+	hasAttr  bool
+	pending  bool
 	hasAttr2 bool
 	pending2 bool
 }
